@@ -75,6 +75,8 @@ type Fault struct {
 	// Action: "error" (default: the call fails with ErrNo, nothing applied),
 	// "drop" (the connection dies: open transaction discarded, the call returns
 	// mysql.ErrInvalidConn, later calls driver.ErrBadConn),
+	// "badconn" (as drop, but the call returns driver.ErrBadConn - what go-sql-driver returns when writing
+	// the packet fails on a dead connection; database/sql then retries a pool statement on a fresh connection),
 	// "after" (the call is applied, then fails with ErrNo: lost reply),
 	// "cancel" (the caller's context is cancelled just before the call - Server.SetCancel - and the call is
 	// refused with context.Canceled without being applied; the connection stays usable, as go-sql-driver
@@ -340,7 +342,7 @@ func (s *Server) view(tx *txState, t *Table) []*row {
 	if tx == nil {
 		return t.rows
 	}
-	ov := tx.overlay[strings.ToLower(t.Name)]
+	ov := tx.overlay[strings.ToLower(t.qname())]
 	if len(ov) == 0 {
 		return t.rows
 	}
@@ -360,7 +362,7 @@ func (s *Server) view(tx *txState, t *Table) []*row {
 }
 
 func (tx *txState) put(t *Table, kv, vals []Value) {
-	n := strings.ToLower(t.Name)
+	n := strings.ToLower(t.qname())
 	m := tx.overlay[n]
 	if m == nil {
 		m = map[string]*ovRow{}
@@ -370,7 +372,7 @@ func (tx *txState) put(t *Table, kv, vals []Value) {
 }
 
 func (tx *txState) del(t *Table, kv []Value) {
-	n := strings.ToLower(t.Name)
+	n := strings.ToLower(t.qname())
 	m := tx.overlay[n]
 	if m == nil {
 		m = map[string]*ovRow{}
@@ -445,7 +447,7 @@ type TableDump struct {
 }
 
 func (s *Server) dumpTable(t *Table) TableDump {
-	d := TableDump{Name: t.Name, AutoInc: t.autoInc, Rows: [][]TaggedValue{}}
+	d := TableDump{Name: t.qname(), AutoInc: t.autoInc, Rows: [][]TaggedValue{}}
 	for _, c := range t.Cols {
 		d.Columns = append(d.Columns, c.Name)
 		d.Types = append(d.Types, c.Type.ColumnTypeText())
